@@ -1,23 +1,23 @@
-"""C06/C07: combinators in testtools/matchers/_higherorder.py"""
+"""C06: combinators in testtools/matchers/_higherorder.py"""
 
 M = "testtools.matchers._higherorder:"
 
 
 def register(R):
-    # verdict of an abstract matcher on a value: an uninterpreted FUNCTION (determinism by construction)
-    R.function("holds", ["val", "val"], "bool")
-    R.shape("AMatcher",
-            match=dict(signature="x", returns="?AMismatch", pure=True,
-                       ensures=["(result is None) == holds(self, x)"]))
-    R.shape("AMismatch")
     R.fields_of("MatchesAll", matchers="tuple[AMatcher]", first_only="bool")
     R.fields_of("MatchesAny", matchers="tuple[AMatcher]")
     R.fields_of("Not", matcher="AMatcher")
     R.fields_of("Annotate", matcher="AMatcher", annotation="any")
     R.fields_of("MismatchesAll", mismatches="list", _wrap="bool")
+    R.fields_of("AllMatch", matcher="AMatcher")
+    R.fields_of("AnyMatch", matcher="AMatcher")
+    R.fields_of("AfterPreprocessing", matcher="AMatcher", preprocessor="PureFn", annotate="bool")
+    R.fields_of("MatchesPredicate", predicate="PureFn", message="str")
+    R.fields_of("_MatchesPredicateWithParams", predicate="PureFn", message="str", name="any", args="tuple", kwargs="dict")
+    R.fields_of("MismatchDecorator", original="any")
+    R.fields_of("PostfixedMismatch", annotation="any", mismatch="any")
 
     R.contract(M + "MatchesAll.match", props=["C06"], params={"matchee": "any"}, pure=True,
-               returns="any",
                ensures=["(result is None) == all(holds(m, matchee) for m in self.matchers)"],
                loops={0: dict(invariant=[
                    "not allocated(results)",
@@ -33,3 +33,23 @@ def register(R):
                ensures=["(result is None) == (not holds(self.matcher, other))"])
     R.contract(M + "Annotate.match", props=["C06"], params={"other": "any"}, pure=True,
                ensures=["(result is None) == holds(self.matcher, other)"])
+    R.contract(M + "AllMatch.match", props=["C06"], params={"values": "list"}, pure=True,
+               ensures=["(result is None) == all(holds(self.matcher, v) for v in values)"],
+               loops={0: dict(invariant=[
+                   "not allocated(mismatches)",
+                   "(len(mismatches) == 0) == all(holds(self.matcher, _seq[j]) for j in range(_i))",
+               ])})
+    R.contract(M + "AnyMatch.match", props=["C06"], params={"values": "list"}, pure=True,
+               ensures=["(result is None) == any(holds(self.matcher, v) for v in values)"],
+               loops={0: dict(invariant=[
+                   "not allocated(mismatches)",
+                   "all(not holds(self.matcher, _seq[j]) for j in range(_i))",
+               ])})
+    # AfterPreprocessing: the inner verdict on f(x); exceptions of the preprocessor propagate
+    R.contract(M + "AfterPreprocessing.match", props=["C06"], params={"value": "any"}, pure=True,
+               exsures=["True"],
+               ensures=["(result is None) == holds(self.matcher, fn_result(self.preprocessor, [value]))"])
+    R.contract(M + "AfterPreprocessing._str_preprocessor", params={}, pure=True, returns="str", inline=True)
+    R.contract(M + "MatchesPredicate.match", props=["C06"], params={"x": "any"}, pure=True,
+               exsures=["True"],
+               ensures=["(result is None) == truthy(fn_result(self.predicate, [x]))"])
